@@ -410,6 +410,13 @@ class Manager:
     def removeHandler(self, method, event=None):
         names = method.names if event is None else [event]
 
+        if event is None and not method.names:
+            # (a handler for all events: see addHandler() for where it is kept)
+            if method.channel == '*':
+                self._globals.discard(method)
+            else:
+                names = ['*']
+
         for name in names:
             self._handlers[name].remove(method)
             if not self._handlers[name]:
